@@ -266,7 +266,7 @@ func genC16(rng *rand.Rand, seed uint64, tier string) *Script {
 			tgt := targets[rng.IntN(len(targets))]
 			switch k := rng.IntN(100); {
 			case k < 35:
-				ops = append(ops, Op{K: "msg", W: w, Mut: "vauth_proof", To: tgt, Note: pick(rng, "", "", "", "", "wrongkey", "wrongmsg", "v27", "short", "long", "flip", "upper", "no0x", "acc_upper", "acc_upper", "acc_mixed", "acc_long", "acc_long"), Via: pick(rng, "", "", "check")})
+				ops = append(ops, Op{K: "msg", W: w, Mut: "vauth_proof", To: tgt, Note: pick(rng, "", "", "", "", "wrongkey", "wrongmsg", "v27", "short", "long", "flip", "upper", "no0x", "acc_upper", "acc_upper", "acc_mixed", "acc_long", "acc_long"), Via: pick(rng, "", "", "check"), Hex: pick(rng, "", "", "", "failsend")})
 			case k < 65:
 				ops = append(ops, Op{K: "msg", W: w, Mut: "vest_create", To: tgt, Ref: rng.IntN(9), Note: pick(rng, "continuous", "delayed", "periodic", "permanent")})
 			case k < 80: // nested in exec / granted
